@@ -1482,7 +1482,7 @@ static void pfc_exact_case(uint64_t idx, void *arg)
 int main(int argc, char **argv)
 {
         mc_init(argc, argv, "C15");
-        mc_set_budget(150, 1500);
+        mc_set_budget(300, 1500);
         self_check_hamming();
         ref_crc_init();
         mc_meta("level", "model_checking");
